@@ -77,6 +77,8 @@ type chunkRes struct {
 
 type childState struct {
 	seedAcc []bool
+	seedTr  *transcript
+	seedF   int
 	plan  *plan
 	h     *harness
 	prog  *progress
@@ -189,6 +191,22 @@ func (c *childState) runChunk(ci int, ch chunk, skip []skipKey) *chunkRes {
 				r.cm.Close(c.h.ctx)
 			}
 			c.seedAcc[f] = r.res == "accept"
+		}
+		// ... and must behave exactly like the seed: its interpreter transcript under the first
+		// accepting feature set is the reference for the over-long variants of this field
+		c.seedTr, c.seedF = nil, -1
+		for f := range featureSets {
+			if c.seedAcc[f] {
+				sb := c.plan.seeds[ch.Seed].B
+				if r := c.h.compile(engInterp, f, sb); r.cm != nil {
+					if dec, err := decodeForHarness(sb, f); err == nil && dec != nil {
+						c.prog.set(ci, 0, f, phaseMeasure, engInterp)
+						c.seedTr, c.seedF = c.h.execute(engInterp, f, r.cm, dec, 3), f
+					}
+					r.cm.Close(c.h.ctx)
+				}
+				break
+			}
 		}
 		c.prog.idle()
 	}
@@ -476,6 +494,14 @@ func (c *childState) executeOne(ci int, es *evalState, skipX map[int]bool, res *
 	if ts[0].Skipped != "" || ts[1].Skipped != "" {
 		res.Outcomes["exec:skipped:"+ts[0].Skipped+ts[1].Skipped]++
 		return
+	}
+	if in.IfSeed && c.seedTr != nil && c.seedF == f {
+		// a legal over-long re-encoding of one field must not change what the module does
+		res.Outcomes["overlong:behaviour-compared"]++
+		if d := compareTranscripts(c.seedTr, ts[0]); d != "" {
+			c.addViol(res, "overlong-changes-behaviour:"+strings.TrimPrefix(validClass(in.Tag), "overlong:"),
+				fmt.Sprintf("an over-long (legal) re-encoding of one LEB field changes the behaviour of the module on the interpreter (%s): %s", featureSets[f].Name, strings.Replace(d, engName[1], "re-encoded", -1)), in, f)
+		}
 	}
 	// outcome histogram: deterministic classes only; deadline-dependent ones go to Timing
 	for e := 0; e < 2; e++ {
